@@ -20,6 +20,7 @@ pub mod c14;
 pub mod c15;
 pub mod c16;
 pub mod c17;
+pub mod c18;
 
 pub struct PropDef {
     pub id: &'static str,
@@ -38,10 +39,12 @@ pub struct PropDef {
     pub block: u64,
     /// runtime flavours of hsim this property is run on
     pub flavours: &'static [&'static str],
+    /// canonical outcome record of a run (compared across flavours and schedules by the driver)
+    pub outcome: Option<fn(&View) -> String>,
 }
 
 pub fn all() -> Vec<PropDef> {
-    vec![c01::def(), c02::def(), c03::def(), c04::def(), c05::def(), c06::def(), c07::def(), c08::def(), c09::def(), c10::def(), c11::def(), c12::def(), c13::def(), c14::def(), c15::def(), c16::def(), c17::def()]
+    vec![c01::def(), c02::def(), c03::def(), c04::def(), c05::def(), c06::def(), c07::def(), c08::def(), c09::def(), c10::def(), c11::def(), c12::def(), c13::def(), c14::def(), c15::def(), c16::def(), c17::def(), c18::def()]
 }
 
 pub fn get(id: &str) -> Option<PropDef> {
